@@ -412,6 +412,12 @@ class Coordinator(object):
             self.stop(errback_result=result)
             return
 
+        if self._stopping:
+            # An error reply which arrives while we are stopping (e.g. while
+            # waiting for the LeaveGroup response) must not re-arm the rejoin
+            # timer: stop() has already cancelled it and won't do so again.
+            return
+
         self._state = "[rejoin_needed]"
         self._rejoin_needed = True
         if not self._rejoin_wait_dc:
